@@ -22,6 +22,7 @@ EXPLANATION = (
     "records an issue; (A4) the per-condition parallel map is ordered and results are appended in iteration order."
     " (A5) the molecule list handed to the pair search has exactly one entry per '.'-component of the searched side (comprehension / loop without filter; no dict, set or fromkeys in between)."
     ' (A7) a sort-based selection ranks by the total first; condition tables may be iterated through loop variables.'
+    " (A9) a failed step's None entry is not published as a substructure, or the published lists are length-checked."
 )
 ASSUMPTIONS = ["rdFMCS / RascalMCES return substructures of their inputs (not decided)"]
 
